@@ -29,7 +29,7 @@ Definition verdicts (p : str) (names : list str) :=
 def gen_names(rng, n):
     names = set()
     fixed = ["a", "A", "ab", "a.txt", "A.TXT", "f1.txt", "ff1", "f+1", "a+b", "x{1}", "a|b", "[a]", "(a)", "^a$", "a-b,c", "it's", "#1~",
-             "a b", ".hid", "a*b"[:1] + "b", "100%", "a_b", "axb", "a?b"[:1] + "b2"]
+             "a b", ".hid", "100%", "a_b", "axb", "a\nb", "a\\b", "a\n", "x\ny.txt"]
     for f in fixed:
         names.add(f)
     while len(names) < n:
@@ -119,7 +119,7 @@ def run(ctx):
         if not ok:
             ctx.proof_failure = "coqchk failed: " + out[-500:]
     rng = ctx.rng
-    npat = 60 if ctx.tier == "quick" else 1500
+    npat = 160 if ctx.tier == "quick" else 2500
     names = gen_names(rng, 36 if ctx.tier == "quick" else 60)
     root = os.path.join(ctx.scratch, "m")
     os.mkdir(root)
